@@ -41,7 +41,7 @@ pub fn chunked_body_flow_for(which: usize) -> Result<F<RecvBody>, String> {
     };
     // the coding is announced in several legal spellings
     // (the last one: the list spread over two field lines)
-    let te = ["chunked", "Chunked", "gzip, chunked", "chunked,", "chunked", " chunked\t", "gzip\r\nTransfer-Encoding: chunked"][which / CHUNKED_STATUSES.len() % 7];
+    let te = ["chunked", "Chunked", "gzip, chunked", "chunked,", "chunked", " chunked\t", "gzip\r\nTransfer-Encoding: chunked", "gzip,\tchunked", "chunked\t, "][which / CHUNKED_STATUSES.len() % 9];
     if which % 6 == 4 {
         // an interim response (102, 103) comes first on one flow in six: the response that counts, and whose
         // coding is decoded, is the one after it
@@ -559,7 +559,7 @@ impl Property for P {
         "C07"
     }
     fn rule(&self) -> String {
-        "chunked codings are rendered from a plan (sizes, hex case, leading zeros, extensions, trailers, payload containing CR/LF/'0'/';'), so payload, coding length and chunk map are known. Each run delivers the coding followed by the head of a next message under a cut set, reading while there is progress with a given output-size pattern, boundary stop on or off, and checks after every read: output == payload so far, never a byte beyond the coding consumed, ended <=> final CRLF consumed, no read spanning two chunks with boundary stop. (A) every coding <= 18 bytes of a tiny grammar x ALL cut sets x {out 0..4 cycle, 1, large, exact-then-zero-length} x stop on/off; the response carrying the coding is one of eight (method, status) pairs incl. 205, 301, 404, 500; (B) grammar codings (<=3 chunks, sizes 1,2,3,15,16,255,256,4095,4096, ext, hex styles, 0..2 trailers) x every single cut and every pair of cuts within +-3 of a token boundary, byte-at-a-time, random cut sets; (C) random codings up to 8 chunks of 20 KB. The coding is announced as chunked / Chunked / gzip, chunked / chunked, (empty list element) / with blanks / on two field lines; chunk extensions up to 120 bytes; trailer lines up to 5000 bytes occur in the random plans. class = token kind before the cut x output pattern; decoder transitions actually taken are counted by the in-crate hook. One run in five reads through the single-call API (Call::<RecvBody>::read), one flow in six receives an interim 102/103 first, one head in four carries a Content-Length next to its Transfer-Encoding lines; sizes padded to 17..41 digits, blanks before and octets above 0x7f inside chunk extensions.".into()
+        "chunked codings are rendered from a plan (sizes, hex case, leading zeros, extensions, trailers, payload containing CR/LF/'0'/';'), so payload, coding length and chunk map are known. Each run delivers the coding followed by the head of a next message under a cut set, reading while there is progress with a given output-size pattern, boundary stop on or off, and checks after every read: output == payload so far, never a byte beyond the coding consumed, ended <=> final CRLF consumed, no read spanning two chunks with boundary stop. (A) every coding <= 18 bytes of a tiny grammar x ALL cut sets x {out 0..4 cycle, 1, large, exact-then-zero-length} x stop on/off; the response carrying the coding is one of eight (method, status) pairs incl. 205, 301, 404, 500; (B) grammar codings (<=3 chunks, sizes 1,2,3,15,16,255,256,4095,4096, ext, hex styles, 0..2 trailers) x every single cut and every pair of cuts within +-3 of a token boundary, byte-at-a-time, random cut sets; (C) random codings up to 8 chunks of 20 KB. The coding is announced as chunked / Chunked / gzip, chunked / chunked, (empty list element) / with blanks / with a tab inside the list / on two field lines; chunk extensions up to 120 bytes; trailer lines up to 5000 bytes occur in the random plans. class = token kind before the cut x output pattern; decoder transitions actually taken are counted by the in-crate hook. One run in five reads through the single-call API (Call::<RecvBody>::read), one flow in six receives an interim 102/103 first, one head in four carries a Content-Length next to its Transfer-Encoding lines; sizes padded to 17..41 digits, blanks before and octets above 0x7f inside chunk extensions.".into()
     }
     fn assumptions(&self) -> Vec<String> {
         vec![
